@@ -271,3 +271,11 @@ SUBS = [
     Sub("consumers", check_consumer, strategy=consumer_case, quick=12000, thorough=200000),
 ]
 KNOWN = {}
+
+# second use of one view object after its sources were edited (shared sub-check, see pv/reuse.py): the views that consume
+# the ordering - sort, mergesort, the ordered selectors, the merge joins
+from pv import reuse  # noqa: E402
+SUBS.append(reuse.sub(ID, quick=2000, thorough=20000, names=reuse.names_of("C05") + [
+    n for n in reuse.names_of("C13") if n.startswith(("selectlt", "selectle", "selectgt", "selectge", "selectrange"))
+] + [n for n in reuse.names_of("C06") if "cross" not in n and "unjoin" not in n]))
+RULE += reuse.RULE
